@@ -1305,12 +1305,52 @@ class Interp:
     def e_SetComp(self, n):
         return VTuple(self.comp_items(n))
 
+    def e_DictComp(self, n):
+        """{k: v for t in <symbolic list> if c}: a dict known through its items: every item comes from a source element that
+        passes the filter, and every source element that passes the filter has its key in the dict (order and the resolution
+        of duplicate keys are abstracted)"""
+        if len(n.generators) != 1:
+            raise Unsupported('nested dict comprehension')
+        g = n.generators[0]
+        it = unopt(self, self.eval(g.iter))
+        if not isinstance(it, VList):
+            raise Unsupported('dict comprehension over %r' % (it,))
+        i = core.fresh('ci', z3.IntSort())
+        saved = self.frame
+        self.frame = Frame({}, saved, saved.clsname)
+        self.pure += 1
+        try:
+            self.assign(g.target, it.at(i))
+            guard = z3.And([z3.And(it.lo <= i, i < it.hi)] + [truthy(self, self.eval(c)) for c in g.ifs])
+            key, val = self.eval(n.key), self.eval(n.value)
+        finally:
+            self.pure -= 1
+            self.frame = saved
+        ek = Tup(kind_of(key), kind_of(val))
+        comps = ek.unwrap(VTuple([key, val]))
+        arrs = [core.fresh('dcomp', z3.ArraySort(z3.IntSort(), c.sort())) for c in comps]
+        m = core.fresh('dcomp_len', z3.IntSort())
+        src = z3.Function('dcomp_src!%d' % core.next_id(), z3.IntSort(), z3.IntSort())
+        pos = z3.Function('dcomp_pos!%d' % core.next_id(), z3.IntSort(), z3.IntSort())
+        p = core.fresh('p', z3.IntSort())
+        self.assume(m >= 0)
+        at = lambda t, j: z3.substitute(t, (i, j))      # noqa: E731
+        self.assume(z3.ForAll([p], z3.Implies(z3.And(0 <= p, p < m), z3.And(
+            [at(guard, src(p))] + [z3.Select(a, p) == at(c, src(p)) for a, c in zip(arrs, comps)]))))
+        nk = len(ek.ks[0].sorts())
+        self.assume(z3.ForAll([i], z3.Implies(guard, z3.And(
+            [0 <= pos(i), pos(i) < m] + [z3.Select(a, pos(i)) == c for a, c in list(zip(arrs, comps))[:nk]]))))
+        return VItemsDict(VList(ek, arrs, z3.IntVal(0), m))
+
     # calls ------------------------------------------------------------------
     def eval_args(self, n):
         args, kwargs = [], {}
         for a in n.args:
             if isinstance(a, ast.Starred):
                 v = unopt(self, self.eval(a.value))
+                if isinstance(v, VModel) and hasattr(v, 'star'):
+                    args.extend(v.star(self))
+                    continue
                 if isinstance(v, VGen):
                     v = VTuple(v.items)
                 if not isinstance(v, (VTuple, VCList)):
@@ -1321,12 +1361,28 @@ class Interp:
         for k in n.keywords:
             if k.arg is None:
                 v = self.eval(k.value)
+                if isinstance(v, VModel) and hasattr(v, 'dstar'):
+                    kwargs.update(v.dstar(self))
+                    continue
                 if not isinstance(v, VCDict):
                     raise Unsupported('call with **%r' % (v,))
                 kwargs.update(v.d)
             else:
                 kwargs[k.arg] = self.eval(k.value)
         return args, kwargs
+
+    def _object_receiver(self, node):
+        """the receiver expression is an attribute chain rooted at a name and denotes an object (not a builtin str/list/dict value)"""
+        root = node
+        while isinstance(root, ast.Attribute):
+            root = root.value
+        if not isinstance(root, ast.Name) or root.id in self.spec.env or root.id in ('os', 're', 'json', 'time', 'select', 'socket'):
+            return False
+        try:
+            v = self.eval(node)
+        except Unsupported:
+            return True
+        return isinstance(v, (VRef, VModel, VOpt, VDyn))
 
     def e_Call(self, n):
         txt = ast.unparse(n.func)
@@ -1336,8 +1392,8 @@ class Interp:
             if summ is None:
                 # the same method reached through another receiver expression: use the (unique) contract of that method;
                 # the summary receives the actual receiver
-                cands = [k for k in self.spec.calls if k.endswith('.' + n.func.attr) and not k.startswith('*')]
-                if len(cands) == 1:
+                cands = [k for k in self.spec.calls if k.endswith('.' + n.func.attr) and k.startswith('self.')]
+                if len(cands) == 1 and self._object_receiver(n.func.value):
                     summ = self.spec.calls[cands[0]]
                     self.st.notes.append('call %s matched to the contract registered for %s' % (txt, cands[0]))
                     txt = cands[0]
